@@ -185,6 +185,20 @@ Definition param_shape (p : node) : bool :=
   | NParamContent _ key c => ident_ok key && sk c
   | _ => false
   end.
+(* the children of a {msg}: raw text, placeholders (a command each), plurals (a number expression and the cases) *)
+Fixpoint mq_chk (fuel : nat) (n : node) : bool :=
+  match fuel with
+  | O => false
+  | S f =>
+      match n with
+      | NRawText _ _ => sk n
+      | NMsgPlaceholder _ _ b => sk b
+      | NMsgPlural _ _ v cases dflt => ek v && forallb (mq_chk f) cases && forallb (mq_chk f) dflt
+      | NMsgPluralCase _ _ body => forallb (mq_chk f) body
+      | NList _ l => forallb (mq_chk f) l
+      | _ => true
+      end
+  end.
 Definition for_list_shape (lst : node) : bool :=
   match lst with
   | NFunc _ fname args =>
@@ -217,6 +231,7 @@ Fixpoint stmt_chk (fuel : nat) (n : node) : bool :=
           && imp_ok (fmt_chunks (fmt_call_text fmt) name)
           && match data with Some d => expr_okb f d | None => true end
           && forallb (param_shape (expr_okb f) (stmt_chk f)) params
+      | NMsg _ _ _ _ body => forallb (mq_chk (expr_okb f) (stmt_chk f) f) body
       | NLetValue _ name e => ident_ok name && expr_okb f e
       | NLetContent _ name bd => ident_ok name && stmt_chk f bd
       | _ => false
